@@ -25,6 +25,8 @@ Donor == {"none", "shared"}                        \* without CX donor / with th
 \* the caller's profiles: every point its own plasma state, or two points with identical (n_e, T_e, n_D) but different
 \* densities of the other species (an impurity scan at fixed plasma parameters)
 Profiles == {"distinct", "repeated_plasma"}
+\* the atomic-data provider handed to the call: two providers with different rate coefficients live in one session
+Providers == 1..2
 
 VARIABLES profile,   \* which set of profiles the caller owns in this session
           inputs,    \* version of each caller-owned array (0 = as created); no action of the library may change it
@@ -32,15 +34,17 @@ VARIABLES profile,   \* which set of profiles the caller owns in this session
 vars == <<profile, inputs, hist>>
 
 Init == profile \in Profiles /\ inputs = [ne |-> 0, te |-> 0, nd |-> 0, nel |-> 0] /\ hist = <<>>
-Call(e, el, fr, rep, d) ==
+Call(e, el, fr, rep, d, pv) ==
     /\ rep \in RepsOf(fr)
     /\ UNCHANGED <<inputs, profile>>
-    /\ hist' = Append(hist, [entry |-> e, element |-> el, front |-> fr, rep |-> rep, donor |-> d])
-Next == Len(hist) < MaxHist /\ \E e \in Entries, el \in Elements, fr \in Fronts, rep \in Reps, d \in Donor : Call(e, el, fr, rep, d)
+    /\ hist' = Append(hist, [entry |-> e, element |-> el, front |-> fr, rep |-> rep, donor |-> d, provider |-> pv])
+\* the second provider appears in the direct calls (the front-ends only wrap them)
+Next == Len(hist) < MaxHist /\ \E e \in Entries, el \in Elements, fr \in Fronts, rep \in Reps, d \in Donor, pv \in Providers :
+                                  (pv = 2 => fr = "direct" /\ rep \in {"scalar", "ndarray"}) /\ Call(e, el, fr, rep, d, pv)
 Spec == Init /\ [][Next]_vars
 
 InputsUntouched == inputs = [ne |-> 0, te |-> 0, nd |-> 0, nel |-> 0]
 \* the result of a call is determined by this key alone (the harness compares equal keys across and within histories)
-ResultKey(c) == <<c.entry, c.element, c.donor>>
+ResultKey(c) == <<c.entry, c.element, c.donor, c.provider>>
 Emit == PrintT(ToJson([calls |-> hist', profile |-> profile']))
 =============================================================================
